@@ -816,7 +816,7 @@ func runSched(c caseIn) *caseOut {
 		if r.delStarted[cr.id] {
 			continue
 		}
-		pm, err := domainproxy.VerifLookup(freeMod, cr.name)
+		pm, err := domainproxy.VerifLookup(freeMod, cr.name+":80") // name:port always resolves to name (a bare name containing ':' does not)
 		switch {
 		case err == nil && (pm.ID != cr.id || pm.TargetClientID != cr.client):
 			r.fail("live-create-routes-elsewhere", fmt.Sprintf("%q was created by client %d as %s and never deleted, but now routes to client %d (%s)", cr.name, cr.client, cr.id, pm.TargetClientID, pm.ID))
@@ -833,7 +833,7 @@ func runSched(c caseIn) *caseOut {
 			if idxNow[cr.name] == id {
 				r.fail("deleted-still-indexed", fmt.Sprintf("DeleteMapping(%s) returned success but the index of %q still points at it", id, cr.name))
 			}
-			if pm, err := domainproxy.VerifLookup(freeMod, cr.name); err == nil && pm.ID == id {
+			if pm, err := domainproxy.VerifLookup(freeMod, cr.name+":80"); err == nil && pm.ID == id {
 				r.fail("deleted-still-routes", fmt.Sprintf("DeleteMapping(%s) returned success but %q still routes to it", id, cr.name))
 			}
 		}
@@ -893,13 +893,13 @@ func runSched(c caseIn) *caseOut {
 			if err := freeRepo.DeleteMapping(ctx, m.ID, 1000); err == nil || !coreerrors.IsCode(err, coreerrors.CodeForbidden) {
 				r.fail("non-owner-delete", fmt.Sprintf("DeleteMapping(%s) by client 1000 (owner is 999) returned %v", m.ID, err))
 			}
-			if pm, err := domainproxy.VerifLookup(freeMod, nm); err != nil || pm.ID != m.ID {
+			if pm, err := domainproxy.VerifLookup(freeMod, nm+":80"); err != nil || pm.ID != m.ID {
 				r.fail("non-owner-delete", fmt.Sprintf("after a refused foreign delete %q no longer routes to %s", nm, m.ID))
 			}
 			if err := freeRepo.DeleteMapping(ctx, m.ID, 999); err != nil {
 				r.fail("owner-delete-fails", fmt.Sprintf("DeleteMapping(%s) by its owner fails: %v", m.ID, err))
 			}
-			if pm, err := domainproxy.VerifLookup(freeMod, nm); err == nil && pm.ID == m.ID {
+			if pm, err := domainproxy.VerifLookup(freeMod, nm+":443"); err == nil && pm.ID == m.ID {
 				r.fail("deleted-still-routes", fmt.Sprintf("%q still routes to %s after its owner deleted it", nm, m.ID))
 			}
 		}
